@@ -57,7 +57,9 @@ class SBytes:
             for k in range(len(b) - 1, -1, -1):
                 r = ite(i == k, b[k], r)
             return r
-        return SBytes(len(b), fn)
+        out = SBytes(len(b), fn)
+        out.concrete = b
+        return out
 
     @staticmethod
     def from_array(arr, order="C"):
